@@ -15,6 +15,7 @@ import GenProps.C14ATN
 #print axioms Blackbird.C14_tokens_match_grammar
 #print axioms Blackbird.C14_grammar_is_model_grammar
 #print axioms Blackbird.C14_model_token_kinds
+#print axioms Blackbird.C14_parser_code_skeletons_identical
 #print axioms Blackbird.C14_lexer_atn_decodes
 #print axioms Blackbird.C14_lexer_subautomata
 #print axioms Blackbird.C14_lexer_certificates
@@ -25,3 +26,4 @@ import GenProps.C14ATN
 #print axioms Blackbird.C14_parser_certificates
 #print axioms Blackbird.C14_parser_rule_language
 #print axioms Blackbird.C14_left_recursive_rules
+#print axioms Blackbird.C14_candidate_is_automaton_longest
